@@ -24,6 +24,11 @@ pub open spec fn full_ok_atomic<'i, R: RuleType, S: TypedNode<'i, R>>(c: Ctx<'i>
 
 
 def build(U):
+    emit(U)
+
+
+def emit(U):
+    """prelude + EOI + the four full-input wrappers (also used by unit `rules`)"""
     U.use('vstd::string::*')
     U.use('vstd::utf8::*')
     F = 'main/src/rule.rs'
